@@ -265,7 +265,8 @@ func geoipPaths() (string, string) {
 	return filepath.Join(repo, "broker", "test_geoip"), filepath.Join(repo, "broker", "test_geoip6")
 }
 
-var c19Addrs = []string{"129.97.208.23", "1.2.3.4", "8.8.8.8", "2001:db8::1", "127.0.0.1", "192.0.2.77", "2a00:1450:4001:81b::200e", "203.0.113.9", "10.1.2.3", "198.51.100.200"}
+// (two zoned link-local addresses: net/http reports them with the zone, and no IP parser accepts that text)
+var c19Addrs = []string{"129.97.208.23", "1.2.3.4", "8.8.8.8", "2001:db8::1", "127.0.0.1", "192.0.2.77", "2a00:1450:4001:81b::200e", "203.0.113.9", "10.1.2.3", "198.51.100.200", "fe80::1%eth0", "fe80::2%eth0", "fe80::1%eth1"}
 
 // one accounting case: a broker instance with its own event multiset
 func c19Case(res *vlib.Result, r *vlib.Rand, id int) {
